@@ -357,6 +357,25 @@ impl Prop for C14 {
             let at = rng.usize(lines.len() + 1);
             lines.insert(at, format!("{}{}{}", num, rng.pick(&[" ", "", "  "]), stress_line(rng)));
         }
+        if rng.chance(1, 4) {
+            // the stored program may be the result of a session, not only of typing lines in: run it
+            // (READs happen, the run is cut after 50 turns), then delete / replace / add lines. What LIST
+            // shows afterwards must still reload to a program that behaves like the one in this session.
+            let nums: Vec<u64> = lines
+                .iter()
+                .filter_map(|l| l.trim_start().split(|c: char| !c.is_ascii_digit()).next().and_then(|d| d.parse::<u64>().ok()))
+                .collect();
+            lines.push("RUN".to_string());
+            for _ in 0..1 + rng.usize(3) {
+                let n = if nums.is_empty() || rng.chance(1, 5) { rng.below(400) } else { rng.pick(&nums) };
+                lines.push(match rng.below(5) {
+                    0..=1 => format!("{n}"),
+                    2 => format!("{n} PRINT \"r{}\"", rng.below(100)),
+                    3 => format!("{n} DATA {}, \"d{}\"", rng.below(100), rng.below(100)),
+                    _ => format!("{n} READ Q9$ : PRINT Q9$"),
+                });
+            }
+        }
         Case {
             lines,
             seed: rng.below(100),
